@@ -37,6 +37,8 @@ def required_cells(tier):
               "crossing-carrier/miss", "crossing/hit-at-end", "crossing/hit-interior"):
         req["scen:" + s] = 10
     req["carrier:with-judged-inner-calls"] = 100 if tier == "quick" else 2000
+    for hc in ("used-then-moved/receiver", "used-then-moved/returned", "moved/receiver"):
+        req["pose:history/" + hc] = 30
     return req
 
 
@@ -49,7 +51,10 @@ def setup():
 
 
 def worker_report():
-    return _inner.report()
+    _h = {"operand_histories": dict(C.HIST_STATS)}
+    d = _inner.report()
+    d.update(_h)
+    return d
 
 
 def cases(rng, budget, widx, nworkers, tier):
@@ -65,7 +70,7 @@ def cases(rng, budget, widx, nworkers, tier):
             yield {"a": a, "b": b, "label": "carrier", "ls": rng.getrandbits(30), "carrier": True}
             continue
         (a, b), label = gen.flat_pair(rng, ka, kb)
-        yield {"a": a, "b": b, "label": label, "ls": rng.getrandbits(30)}
+        yield C.maybe_hist({"a": a, "b": b, "label": label, "ls": rng.getrandbits(30)}, rng)
 
 
 def judge(case):
@@ -88,6 +93,7 @@ def judge(case):
     scen = C.classify_flat(a, b, exp)
     mu = core.Multi()
     mu.cell("pair:%s,%s" % (ka, kb), "pair:%s,%s->%s" % (ka, kb, C.kname(exp)), "scen:" + scen, "gen:" + case["label"])
+    mu.cell(*C.hist_cell(case))
     x, y = C.lift_pair(case)
     kb_ = "%s,%s" % (ka, kb)
     C.run_inter(G.intersection, x, y, exp, "intersection(a,b)", mu, kb_)
